@@ -47,6 +47,12 @@ def obligations(tier):
     # a member swapped for one of the same name that reads another input (remove_indicator + add_indicator)
     for name, kw, n in (("STDEV", dict(period=2), 5), ("BBANDS", dict(period=2), 5), ("KC", dict(period=2), 6), ("STDEVTHRES", dict(period=2), 5)):
         obs.append(Ob(f"swap-input/{name}{kw}/close->open/n={n}", dict(spec=["ind", name, kw], n=n, input="open"), DEF, fn="run_swap", weight=n * 3, budget_s=300))
+    # a fast and a slow instance of one class side by side in a Hexital: each follows its own definition
+    for name, kw, sib, n in (("ATR", dict(period=3), dict(period=2), 6), ("STDEV", dict(period=3), dict(period=2), 6), ("BBANDS", dict(period=3), dict(period=2), 6), ("KC", dict(period=3), dict(period=2), 6),
+                             ("KC", dict(period=2), dict(period=2, multiplier=1.5), 5), ("donchian", dict(period=3), dict(period=2), 6), ("Supertrend", dict(period=2), dict(period=2, multiplier=1.5), 4),
+                             ("Supertrend", dict(period=3), dict(period=2), 5), ("STDEVTHRES", dict(period=3), dict(period=2), 6), ("STDEVTHRES", dict(period=2), dict(period=2, multiplier=1.0), 5), ("HL", dict(period=3), dict(period=2), 5)):
+        for feed in ("batch", "append"):
+            obs.append(Ob(f"sibling/{name}{kw} next to {sib}/{feed}/n={n}", dict(spec=["ind", name, kw], sibling=sib, n=n, feed=feed), DEF, fn="run_sibling", weight=n * 5, budget_s=300))
     return obs
 
 
